@@ -833,7 +833,8 @@ func splitInlineBox(context *layoutContext, box_ Box, positionX, maxX, bottomSpa
 	}
 
 	var (
-		i, floatResumeAt          int
+		i                         int
+		handledFloats             []handledFloat
 		L                         = len(box.Children[skip:])
 		resumeAt                  tree.ResumeStack
 		children, waitingChildren []indexedBoxC
@@ -851,10 +852,14 @@ func splitInlineBox(context *layoutContext, box_ Box, positionX, maxX, bottomSpa
 			inlineOutOfFlowLayout(context, box_, containingBlock, index, child_, children, lineChildren,
 				&waitingChildren, waitingFloats, absoluteBoxes, fixedBoxes, linePlaceholders, &floatWidths, maxX, positionX, bottomSpace)
 			if child.IsFloated() {
-				floatResumeAt = index + 1
+				handled := handledFloat{index: index, child: child_}
 				if !isInBoxes(child_, *waitingFloats) {
 					maxX -= child.MarginWidth()
+					if l := len(waitingChildren); l != 0 && waitingChildren[l-1].child == child_ {
+						handled.newBox = waitingChildren[l-1].box
+					}
 				}
+				handledFloats = append(handledFloats, handled)
 			}
 			continue
 		}
@@ -1034,9 +1039,20 @@ func splitInlineBox(context *layoutContext, box_ Box, positionX, maxX, bottomSpa
 	}
 
 	if resumeAt != nil {
+		// The line may have been broken before floats that were already handled
+		// (inside the waiting children): they are met again on the next line,
+		// with the content that follows the break, so forget them here.
 		resumeIndex, _ := resumeAt.Unpack()
-		if resumeIndex < floatResumeAt {
-			resumeAt = tree.ResumeStack{floatResumeAt: nil}
+		for _, handled := range handledFloats {
+			if handled.index < resumeIndex {
+				continue
+			}
+			if handled.newBox == nil {
+				removeFromBoxes(waitingFloats, handled.child)
+			} else {
+				removeFromShapes(context.excludedShapes, handled.newBox.Box())
+				delete(context.brokenOutOfFlow, handled.child)
+			}
 		}
 	}
 
@@ -1063,6 +1079,24 @@ func (context *layoutContext) addRunning(child_ bo.Box) {
 		context.runningElements[runningName] = currentRE
 	}
 	currentRE[context.currentPage] = append(currentRE[context.currentPage], child_)
+}
+
+// float met by splitInlineBox: either laid out at once (newBox) or waiting
+// for the end of the line (newBox is nil)
+type handledFloat struct {
+	index  int
+	child  Box
+	newBox Box
+}
+
+func removeFromShapes(list *[]*bo.BoxFields, shape *bo.BoxFields) {
+	out := make([]*bo.BoxFields, 0, len(*list))
+	for _, v := range *list {
+		if v != shape {
+			out = append(out, v)
+		}
+	}
+	*list = out
 }
 
 type indexedBoxC struct {
